@@ -59,7 +59,7 @@ func C08(p *core.Program, r *core.Report) {
 	r.NotCovered = "the image scorers and the 13-point threshold semantics (numeric), which text blocks the classifier retains, and the correctness of the element order produced by the converter (C02)."
 
 	// ---- E4
-	re := mustFunc(p, r, "E4", "(*"+docfilterPkg+".RelevantElements).Process")
+	re := mustInl(p, r, "E4", "(*"+docfilterPkg+".RelevantElements).Process")
 	if re != nil {
 		hs := loopHeaders(re)
 		if len(hs) != 1 {
@@ -129,7 +129,7 @@ func C08(p *core.Program, r *core.Report) {
 	}
 
 	// ---- E1
-	ec := mustFunc(p, r, "E1", "(*"+extractorPkg+".ContentExtractor).ExtractContent")
+	ec := mustInl(p, r, "E1", "(*"+extractorPkg+".ContentExtractor).ExtractContent")
 	if ec != nil {
 		find := func(key string) []ssa.CallInstruction {
 			return core.Calls(ec, func(c ssa.CallInstruction) bool { return core.IsCallTo(c, key) })
@@ -137,11 +137,11 @@ func C08(p *core.Program, r *core.Report) {
 		rel := find("(*" + docfilterPkg + ".RelevantElements).Process")
 		lead := find("(*" + docfilterPkg + ".LeadImageFinder).Process")
 		nest := find("(*" + docfilterPkg + ".NestedElementRetainer).Process")
-		proc := find("(*" + extractorPkg + ".ContentExtractor).processDocument")
+		proc := find("(*mod/internal/webdoc.TextDocument).ApplyToModel")
 		imgs := find("(*mod/internal/webdoc.Document).GetImageURLs")
 		if len(rel) != 1 || len(lead) != 1 || len(nest) != 1 || len(proc) == 0 {
 			r.Add("E1", "ExtractContent: the three document filters run once each", p.Pos(ec.Pos()), false,
-				fmt.Sprintf("RelevantElements=%d LeadImageFinder=%d NestedElementRetainer=%d processDocument=%d", len(rel), len(lead), len(nest), len(proc)))
+				fmt.Sprintf("RelevantElements=%d LeadImageFinder=%d NestedElementRetainer=%d TextDocument.ApplyToModel=%d", len(rel), len(lead), len(nest), len(proc)))
 		} else {
 			is := func(x ssa.CallInstruction) func(ssa.Instruction) bool {
 				return func(in ssa.Instruction) bool { return in == ssa.Instruction(x) }
@@ -157,7 +157,7 @@ func C08(p *core.Program, r *core.Report) {
 			ok2, _ := core.MustPassThrough(ec, nest[0], is(lead[0]), nil)
 			r.Add("E1", "LeadImageFinder before NestedElementRetainer", p.Pos(nest[0].Pos()), ok2 && neverAfter(lead[0], nest[0]), "")
 			for _, pc := range proc {
-				r.Add("E1", "text classification (processDocument) precedes the document filters", p.Pos(pc.Pos()), neverAfter(pc, rel[0]), "")
+				r.Add("E1", "text classification (TextDocument.ApplyToModel) precedes the document filters", p.Pos(pc.Pos()), neverAfter(pc, rel[0]), "")
 			}
 			for _, gi := range imgs {
 				ok3, _ := core.MustPassThrough(ec, gi, is(nest[0]), nil)
@@ -176,40 +176,25 @@ func C08(p *core.Program, r *core.Report) {
 		}
 	}
 
-	// ---- E2
-	fl := mustFunc(p, r, "E2", "(*"+docfilterPkg+".LeadImageFinder).findLeadImage")
-	lp := mustFunc(p, r, "E2", "(*"+docfilterPkg+".LeadImageFinder).Process")
-	if fl != nil && lp != nil {
+	// ---- E2: LeadImageFinder.Process with its helpers expanded
+	lp := mustInl(p, r, "E2", "(*"+docfilterPkg+".LeadImageFinder).Process")
+	if lp != nil {
 		nProm := 0
-		for _, fn := range p.ModFunctions(false) {
-			if !strings.Contains(fn.String(), "docfilter.LeadImageFinder)") {
-				continue
-			}
-			for _, call := range core.Calls(fn, func(c ssa.CallInstruction) bool {
-				return core.IsCallTo(c, "iface:SetIsContent", "(*mod/internal/webdoc.BaseElement).SetIsContent")
-			}) {
-				nProm++
-				args := call.Common().Args
-				bv, isC := core.ConstBool(args[len(args)-1])
-				r.Add("E2", "lead image promotion in "+core.ShortKey(fn), p.Pos(call.Pos()), isC && bv && !inLoop(call.Block()) && fn == fl,
-					"the promotion must be SetIsContent(true), outside every loop, in findLeadImage")
-			}
+		for _, call := range core.Calls(lp, func(c ssa.CallInstruction) bool {
+			return core.IsCallTo(c, "iface:SetIsContent", "(*mod/internal/webdoc.BaseElement).SetIsContent")
+		}) {
+			nProm++
+			args := call.Common().Args
+			bv, isC := core.ConstBool(args[len(args)-1])
+			r.Add("E2", "lead image promotion", p.Pos(call.Pos()), isC && bv && !inLoop(call.Block()),
+				"the promotion must be SetIsContent(true), outside every loop")
 		}
-		r.Add("E2", "exactly one promotion site", p.Pos(fl.Pos()), nProm == 1, fmt.Sprintf("%d SetIsContent calls in LeadImageFinder", nProm))
-		calls := core.Calls(lp, func(c ssa.CallInstruction) bool {
-			return core.IsCallTo(c, "(*"+docfilterPkg+".LeadImageFinder).findLeadImage")
-		})
-		okOnce := len(calls) == 1 && !inLoop(calls[0].Block())
-		r.Add("E2", "findLeadImage is called once per Process, outside loops", p.Pos(lp.Pos()), okOnce, fmt.Sprintf("%d calls", len(calls)))
-		// candidate collection loop (second loop of Process)
-		hs := loopHeaders(lp)
-		if len(hs) != 2 {
-			r.Undecided("E2", "LeadImageFinder.Process loops", fmt.Sprintf("expected two loops, found %d", len(hs)))
-		} else {
-			opts := core.DecisionOpts{IterateAt: hs[1], Outcome: func(in ssa.Instruction, c *core.Canon) (string, bool) {
-				if core.IsCallTo(in, "(*"+docfilterPkg+".LeadImageFinder).findLeadImage") {
-					return "stop", true
-				}
+		r.Add("E2", "exactly one promotion site", p.Pos(lp.Pos()), nProm == 1, fmt.Sprintf("%d SetIsContent calls below LeadImageFinder.Process", nProm))
+		// the candidate collection loop: the loop whose iterations append to the candidate list
+		el := `elem($1.Elements)`
+		found := 0
+		for _, h := range loopHeaders(lp) {
+			opts := core.DecisionOpts{IterateAt: h, ExitOutcome: "stop", Outcome: func(in ssa.Instruction, c *core.Canon) (string, bool) {
 				if _, ok := in.(*ssa.Return); ok {
 					return "stop", true
 				}
@@ -223,10 +208,19 @@ func C08(p *core.Program, r *core.Report) {
 				return "", false
 			}}
 			paths, atoms, err := core.EnumerateDecisions(p, lp, opts)
+			isCand := false
+			for _, pa := range paths {
+				if strings.Contains(pa.Outcome, "candidate {"+el+".(*webdoc.") {
+					isCand = true
+				}
+			}
+			if !isCand {
+				continue
+			}
+			found++
 			if err != nil {
 				r.Undecided("E2", "LeadImageFinder.Process", err.Error())
 			}
-			el := `elem($1.Elements)`
 			spec := core.DecisionSpec{
 				Atoms: map[string]string{
 					"is.image":   q(`is(` + el + `,*webdoc.Image)`),
@@ -244,19 +238,7 @@ func C08(p *core.Program, r *core.Report) {
 			}
 			core.CheckDecisionList(r, "E2", "LeadImageFinder.Process(candidates)", paths, atoms, spec)
 		}
-		// scoring loop: no promotion event inside
-		hs2 := loopHeaders(fl)
-		for i, h := range hs2 {
-			opts := core.DecisionOpts{IterateAt: h, Outcome: noOutcome, Event: callEvent(regexp.MustCompile(`SetIsContent`))}
-			paths, _, _ := core.EnumerateDecisions(p, fl, opts)
-			bad := 0
-			for _, pa := range paths {
-				if strings.Contains(pa.Outcome, "SetIsContent") {
-					bad++
-				}
-			}
-			r.Add("E2", fmt.Sprintf("findLeadImage loop %d promotes nothing while scoring", i+1), p.Pos(fl.Pos()), bad == 0, fmt.Sprintf("%d of %d iteration paths contain a promotion", bad, len(paths)))
-		}
+		r.Add("E2", "one loop collects the lead image candidates", p.Pos(lp.Pos()), found == 1, fmt.Sprintf("%d loops append image/figure elements to a candidate list", found))
 	}
 
 	// ---- E3 layering
